@@ -36,9 +36,8 @@ def run(ctx):
 
     # 4. implementation -> model: seeded drivers on a real chain, all tx kinds and limits; gate-scheduled (deterministic
     #    interleavings at lock-site granularity) and free-running goroutines; every event re-derived by Trace_TxPool.tla
-    stats, accepted = pc.record_and_validate(ctx, 52 if q else 1690, "all", "both", "c18-mixed")
-    #    proved work that expires during the run (chain longer than MaxTxWorkDelay); the order oracle after the expiry is
-    #    reported under its own signature (oracle:order-stale-work)
+    stats, accepted = pc.record_and_validate(ctx, 56 if q else 1680, "all", "both", "c18-mixed")
+    #    proved work that expires during the run (chain longer than MaxTxWorkDelay)
     sw, aw = pc.record_and_validate(ctx, 2 if q else 6, "work", "sched", "c18-work", seed_offset=3)
     stats, accepted = stats + sw, accepted + aw
     if not q:
@@ -92,7 +91,7 @@ def run(ctx):
     ctx.cov["free_runs_with_overlap"] = sum(1 for s in stats if s["mode"] == "free" and s["midWashOps"] > 0)
     required = ["displaced", "errortrim", "promote_miss", "add_dup", "fill_dup", "remove_miss", "idguard_refusals",
                 "sameid_copooled", "eval_window_removes", "packer_blocks", "packer_adopted", "packer_removes", "sponsored_txs",
-                "reorgs", "work_expiries"]
+                "reorgs", "work_expiries", "raced_adds"]
     need_v = ["ok", "full", "nonexecfull", "notexec", "payer", "quota", "dquota", "rejected:expired", "rejected:inadmissible",
               "rejected:settled", "rejected:unpayable", "rejected:depreverted"]
     need_d = ["blocked", "depreverted", "expired", "inadmissible", "outlived", "settled", "unpayable", "unpayable-overall"]
@@ -119,11 +118,13 @@ def run(ctx):
         "(runs_discarded_slow): it is neither evidence nor a verdict",
         "free-running traces: the lock-free prefix of add (pool size, published list) is not linearised, those verdicts are accepted as reported",
         "exhaustive only inside the MCPool_*.cfg bounds; larger interleavings are sampled (seeded)",
-        "priorities: a published priority must be the one for the block the wash works towards (next block's base fee, proved "
-        "work only while it counts); the harness computes the expected value with the tx package's own accessors, per base fee. "
-        "The pinned code refreshes cached priorities only when the head's own base fee differs from its parent's: that is "
-        "reported under the signature order:stale-priority-after-head-change (witnessed by the order oracle in the work "
-        "scenario and by rejected eval events in the fork / basefee scenarios)",
+        "priorities: after a wash that runs because the head changed, a priced object's priority must be the one for the next "
+        "block (its base fee; proved work only while it counts) - the harness computes the expected value with the tx package's "
+        "own accessors, per base fee; a wash on an unchanged head keeps it (required by an existing unit test). Residual, listed "
+        "as known finding order:stale-priority:add-raced-head-change: an Add priced under one head and inserted under the next "
+        "keeps the old priority until the next head change; the driver recognises exactly that shape (Add began before the "
+        "head change, no head-change wash since the insertion) - any other outdated priority is a violation "
+        "(order:stale-priority-after-head-change)",
         "payers of txs to an account with a prototype credit plan (sponsor / the account / origin) are computed by the harness "
         "from the head state in the order of runtime.BuyGas and logged per head; an object keeps the payer it was priced with",
         "the housekeeping tick body is driven through the hook (VerifWash, a transcription); the real goroutine on its 1 s ticker "
